@@ -307,7 +307,9 @@ func (r *run) legal(rq *request, d *Decision) bool {
 func (r *run) release(rq *request, d Decision) {
 	r.removePending(rq)
 	d.Op, d.Kind, d.H = "resp", rq.kind, rq.h
-	r.recorded = append(r.recorded, d)
+	if rq.ctx.Err() == nil { // failing a cancelled call is automatic in a replay, not a decision
+		r.recorded = append(r.recorded, d)
+	}
 	var rp reply
 	if rq.kind == "block" {
 		ev := vh.J{"ev": "Resp", "rid": rq.rid, "h": int(rq.h), "r": d.R, "ver": 0, "tag": 0, "corr": "none"}
@@ -538,6 +540,7 @@ func hasAll(pending []*request, hs []uint64) bool {
 // scriptPhase follows the scenario's decisions; false = the node did not offer the request the
 // script wanted (the script is then abandoned, the stable phase takes over).
 func (r *run) scriptPhase() bool {
+	misses := 0
 	for _, d := range r.sc.Decisions {
 		switch d.Op {
 		case "src": // (a replayed step first waits for the requests that were pending when it was recorded)
@@ -591,23 +594,31 @@ func (r *run) scriptPhase() bool {
 			if !d.Burst {
 				r.settle()
 			}
+			wait := 1500 * time.Millisecond
+			if r.sc.Name != "" && len(r.sc.Decisions) > 12 { // a flattened recording: tolerate drift
+				wait = 250 * time.Millisecond
+			}
 			rq := r.waitPending(func(x *request) bool {
-				return x.kind == d.Kind && (d.Kind == "latest" || x.h == d.H)
-			}, 1500*time.Millisecond, true)
+				return x.ctx.Err() == nil && x.kind == d.Kind && (d.Kind == "latest" || x.h == d.H)
+			}, wait, true)
 			if rq == nil {
-				r.note = fmt.Sprintf("script: no pending %s request h=%d", d.Kind, d.H)
-				return false
+				misses++
+				r.note = fmt.Sprintf("script: no pending %s request h=%d (%d misses)", d.Kind, d.H, misses)
+				if misses >= 4 || wait > time.Second {
+					return false
+				}
+				continue
 			}
-			dd := d
-			if rq.ctx.Err() != nil && dd.R != "err" {
-				dd = Decision{R: "err"}
-			}
-			if !r.legal(rq, &dd) {
+			if !r.legal(rq, &d) {
 				r.mu.Unlock()
 				r.note = fmt.Sprintf("script: answer %+v is not legal for request v0=%d", d, rq.v0)
-				return false
+				misses++
+				if misses >= 4 || wait > time.Second {
+					return false
+				}
+				continue
 			}
-			r.release(rq, dd)
+			r.release(rq, d)
 			r.mu.Unlock()
 		default:
 			r.broken = "unknown decision " + d.Op
@@ -646,7 +657,7 @@ func (r *run) pipelineEmpty() bool {
 func (r *run) stablePhase() bool {
 	const quietNeeded = 14
 	r.mu.Lock()
-	budget := 80 * (len(r.cur()) + len(r.shadow) + 10)
+	budget := 50 * (len(r.cur()) + len(r.shadow) + 10)
 	r.mu.Unlock()
 	quiet, seenWrite := 0, -1
 	for n := 0; n < budget; n++ {
@@ -773,8 +784,14 @@ func execute(sc *Scenario, tr int) (*run, error) {
 		converged = r.stablePhase()
 	}
 	r.settle()
+	r.mu.Lock()
+	writesBefore := r.lastWrite
+	r.mu.Unlock()
 	final := r.finalChain()
 	r.mu.Lock()
+	if r.lastWrite != writesBefore { // the chain changed while it was being read: inconclusive run
+		r.lateWrite++
+	}
 	r.log(vh.J{"ev": "End", "tr": tr, "final": final, "conv": converged, "src": r.cur(), "local": append([]int{}, r.shadow...)})
 	r.closed = true
 	r.mu.Unlock()
